@@ -52,7 +52,7 @@ impl Property for C20 {
         "C20"
     }
     fn rule(&self) -> String {
-        "Cases: (LHS operand, RHS vector of any type/length or native integer, operator in {+,-,*,/,%,&,|,^,<<,>>,!}). For each case ALL forms are applied side by side: &a.&b, a.&b, &a.b, a.b, a.=&b, a.=b (6 shift forms; 2 for !); for a native x additionally the same operator with a vector built from x as Bvd, Bv and Bvf<u64,3>, and for shifts the same amount in every native type that can hold it. Oracle: every form's result equals the model result (same length, same bits, light battery) - or every form panics when the divisor is zero - and the operands re-read after all by-reference uses and after in-place operations on clones equal their pre-call snapshots (bits, bytes, capacity). Enumerated: all (n,a,m,b) n,m<=3 (quick)/<=5 (thorough) x 19x19 pairings x 8 binary operators x 6 forms, and shifts/! on all values n<=4/6 x all amounts 0..n+1 x 6 amount types x 6 forms. Non-trivial: n>0 and the result differs from a. Distinct by hash of the case.".into()
+        "Cases: (LHS operand, RHS vector of any type/length or native integer, operator in {+,-,*,/,%,&,|,^,<<,>>,!}). For each case ALL forms are applied side by side: &a.&b, a.&b, &a.b, a.b, a.=&b, a.=b (6 shift forms; 2 for !); for a native x additionally the same operator with a vector built from x as Bvd, Bv and Bvf<u64,3>, and for shifts the same amount in every native type that can hold it. Oracle: every form's result equals the model result (same length, same bits, light battery) - or every form panics when the divisor is zero - and the operands re-read after all by-reference uses and after in-place operations on clones equal their pre-call snapshots (bits, bytes, capacity). Enumerated: all (n,a,m,b) n,m<=3 (quick)/<=5 (thorough) x 20x20 pairings x 8 binary operators x 6 forms, and shifts/! on all values n<=4/6 x all amounts 0..n+1 x 6 amount types x 6 forms. Non-trivial: n>0 and the result differs from a. Distinct by hash of the case.".into()
     }
     fn random_cases(&self, tier: Tier) -> u64 {
         tier.pick(125000, 4800000)
@@ -71,8 +71,8 @@ impl Property for C20 {
     }
     fn exhaustive_subspaces(&self, tier: Tier) -> Vec<String> {
         vec![
-            format!("all values of both operands for n,m<={} x 19x19 pairings x 8 binary operators x all 6 forms", tier.pick(3, 5)),
-            format!("all values n<={} x amounts 0..=n+1 x 6 amount types x 6 shift forms x 19 types; ! both forms", tier.pick(4, 6)),
+            format!("all values of both operands for n,m<={} x 20x20 pairings x 8 binary operators x all 6 forms", tier.pick(3, 5)),
+            format!("all values n<={} x amounts 0..=n+1 x 6 amount types x 6 shift forms x 20 types; ! both forms", tier.pick(4, 6)),
         ]
     }
     fn enumerate(&self, tier: Tier, sh: &mut Shard, f: &mut dyn FnMut(C20Case) -> bool) {
@@ -187,6 +187,7 @@ impl Property for C20 {
                 if let (Some(s), BuiltRhs::V(zb)) = (&snap_b, &variants[0].1) {
                     ensure!(&snapshot(zb) == s, format!("{}/operand-modified", what), "{} {} {}: right operand changed (bits/bytes/capacity {:?} -> {:?})", a.describe(), bop.sym(), b.describe(), s, snapshot(zb));
                 }
+                check_aliased(&za, a, b, *bop, &what, st)?;
                 st.class(shape_class(a, b));
                 st.class(&format!("op:{}", op_name(*bop)));
             }
